@@ -20,6 +20,7 @@ func symSetFileKind(path string, kind int)
 func symFileGen(path string) int
 func symFileMutated(path string)
 func symNote(msg string)
+func symRaceExempt(on bool)
 
 var (
 	ErrDatabaseNotOpen   = errors.New("database not open")
@@ -117,11 +118,15 @@ type fileState struct {
 var files = map[string]*fileState{}
 
 func fileFor(path string) *fileState {
+	// the registry stands for the file system, which is not memory of the program: accesses to
+	// it are not subject to the race analysis
+	symRaceExempt(true)
 	fs := files[path]
 	if fs == nil {
 		fs = &fileState{gen: -1}
 		files[path] = fs
 	}
+	symRaceExempt(false)
 	return fs
 }
 
